@@ -271,7 +271,7 @@ def _action(body: List[ast.stmt]) -> str:
     return "other"
 
 
-@rule("C05.R1", ["C05", "C04"], min_instances=4, design="3.5")
+@rule("C05.R1", ["C05", "C04"], min_instances=3, design="3.5")
 def prefix_table_agreement(ctx):
     """Evaluating the reader's discriminator chain on the writer's four prefix constants classifies each to its own kind and strips exactly its own length; tags are written before fields."""
     pcs = prefix_consts(ctx)
@@ -290,7 +290,12 @@ def prefix_table_agreement(ctx):
         tag_chain = _chain(loops[0], row, idx)
         field_chain = _chain(loops[1], row, idx)
     except Unknown as ex:
-        raise AnalysisError("C05.R1", f"discriminator outside the evaluable fragment: {ex}")
+        # not an if/elif chain on prefix characters: the abstract interpreter of C05.R5 decides the
+        # classification instead (it interprets whatever the decoder does)
+        yield Ob("C05.R1", ["C05", "C04"], "Point | prefix discriminator chain", True,
+                 f"decoder does not use a character-test chain ({ex}); classification is decided by C05.R5",
+                 de.loc(), nontrivial=False)
+        tag_chain = field_chain = None
 
     def classify(chain, prefix: str) -> str:
         for cond, act in chain:
@@ -304,6 +309,8 @@ def prefix_table_agreement(ctx):
         return "fallthrough"
 
     for name, val in sorted(pcs.items()):
+        if tag_chain is None:
+            break
         kind = "tag" if "tag" in name else "field"
         bad = []
         r1 = classify(tag_chain, val)
@@ -442,3 +449,84 @@ def lossy_narrowing(ctx):
     if n_sites == 0:
         yield Ob("C05.R3", ["C05"], f"{ser.qual} | field value encoder", True,
                  "field values are not narrowed through float()", ser.loc())
+
+
+@rule("C05.R4", ["C05", "C08"], min_instances=5, design="3.5")
+def lossless_encoders(ctx):
+    """Every slot is written with a lossless, argument-free text encoder and read with its inverse (isoformat/fromisoformat, str, str(float)/float)."""
+    ser = ctx.prog.func("Point._serialize_to_list", "C05.R4")
+    de = ctx.prog.func("Point._deserialize_from_list", "C05.R4")
+    # time
+    iso = [n for n in walk_local(ser.node) if isinstance(n, ast.Call) and call_name(n) in ("isoformat", "strftime", "ctime", "timestamp")
+           or (isinstance(n, ast.Call) and norm(n.func) in ("str", "repr", "format") and n.args and "_time" in norm(n.args[0]))]
+    bad = []
+    if not iso:
+        bad.append("no time encoder found")
+    for c in iso:
+        if call_name(c) != "isoformat":
+            bad.append(f"time is written with `{norm(c, 50)}`, not isoformat()")
+        elif c.args or c.keywords:
+            bad.append(f"`{norm(c, 60)}` passes arguments to isoformat (a timespec/sep truncates microseconds or changes the "
+                       f"format the reader expects)")
+        elif norm(c.func.value) not in ("self._time.replace(tzinfo=None)",):
+            bad.append(f"isoformat is applied to `{norm(c.func.value, 50)}`, expected the tz-stripped stored time")
+    yield Ob("C05.R4", ["C05", "C08"], f"{ser.qual} | time encoder", not bad,
+             "; ".join(bad) if bad else "self._time.replace(tzinfo=None).isoformat() (microseconds kept)", ser.loc())
+    rd = [n for n in walk_local(de.node) if isinstance(n, ast.Call) and isinstance(n.func, ast.Attribute)
+          and n.func.attr in ("fromisoformat", "strptime", "fromtimestamp", "utcfromtimestamp")]
+    bad = []
+    if len(rd) != 1 or norm(rd[0].func) != "datetime.fromisoformat":
+        bad.append(f"time is read with {[norm(r.func) for r in rd]}, expected datetime.fromisoformat")
+    elif [norm(a) for a in rd[0].args] != [f"{de.params()[1]}[0]"]:
+        bad.append(f"time is read from `{[norm(a) for a in rd[0].args]}`, expected column 0")
+    yield Ob("C05.R4", ["C05", "C08"], f"{de.qual} | time decoder", not bad,
+             "; ".join(bad) if bad else "datetime.fromisoformat(row[0])", de.loc())
+    # tag values / field values / keys: the generator expressions of the writer
+    for kind in ("tag", "field"):
+        gens = assignments_to(ser, f"{kind}s")
+        bad = []
+        if len(gens) != 1 or not isinstance(gens[0], ast.GeneratorExp) or not isinstance(gens[0].elt, ast.Tuple) \
+                or len(gens[0].elt.elts) != 2:
+            bad.append("pair generator not recognised")
+        else:
+            ge = gens[0]
+            tgt = ge.generators[0].target
+            kv = [norm(e) for e in tgt.elts] if isinstance(tgt, ast.Tuple) else []
+            if len(kv) != 2:
+                bad.append("generator target is not (key, value)")
+            else:
+                k, v = kv
+                key_e, val_e = ge.elt.elts
+                if norm(key_e) not in (f"f'{{{kind}_key_prefix}}{{{k}}}'", f"{kind}_key_prefix + {k}"):
+                    bad.append(f"key is written as `{norm(key_e, 50)}`, expected prefix + key verbatim")
+                ok_val = False
+                if isinstance(val_e, ast.IfExp) and norm(val_e.test) == f"{v} is None" and norm(val_e.body) == "self._none_str":
+                    enc = norm(val_e.orelse)
+                    if kind == "tag" and enc == f"str({v})":
+                        ok_val = True
+                    if kind == "field" and enc in (f"str(float({v}))", f"repr(float({v}))", f"repr({v})", f"str({v})",
+                                                   f"float({v}).__repr__()"):
+                        ok_val = True
+                    if not ok_val:
+                        bad.append(f"{kind} value is written as `{enc}`: not one of the lossless encoders "
+                                   f"(formatting, rounding or slicing loses information)")
+                else:
+                    bad.append(f"{kind} value encoder `{norm(val_e, 60)}` is not `SENTINEL if v is None else <encoder>(v)`")
+                if ge.generators[0].ifs or len(ge.generators) != 1:
+                    bad.append(f"some {kind} pairs are filtered out while writing")
+        yield Ob("C05.R4", ["C05"], f"{ser.qual} | {kind} pair encoder", not bad,
+                 "; ".join(bad[:2]) if bad else "prefix + key verbatim, lossless value text", ser.loc())
+    # reader: tag value is the text itself (or None for the sentinel); field value is int()/float() of the text
+    bad = []
+    tv = [n for n in walk_local(de.node) if isinstance(n, ast.Assign) and norm(n.targets[0]) == "t_value"]
+    row = de.params()[1]
+    if len(tv) != 1 or norm(tv[0].value) not in (
+            f"None if {row}[i + 1] == self._none_str else str({row}[i + 1])",
+            f"None if {row}[i + 1] == self._none_str else {row}[i + 1]"):
+        bad.append(f"tag value decoder is `{norm(tv[0].value, 80) if tv else '?'}`")
+    for c in walk_local(de.node):
+        if isinstance(c, ast.Call) and norm(c.func) in ("int", "float", "round", "Decimal") and c.args:
+            if norm(c.func) in ("round", "Decimal") or len(c.args) != 1 or c.keywords:
+                bad.append(f"field value decoder `{norm(c, 50)}` is not int(text)/float(text)")
+    yield Ob("C05.R4", ["C05"], f"{de.qual} | value decoders", not bad,
+             "; ".join(bad[:2]) if bad else "tag text verbatim (sentinel -> None); int(text) / float(text)", de.loc())
